@@ -11,6 +11,7 @@ import (
 	"net/http"
 	"strings"
 	"testing"
+	"testing/iotest"
 
 	"cuelabs.dev/go/oci/ociregistry"
 	"cuelabs.dev/go/oci/ociregistry/ocimem"
@@ -39,6 +40,10 @@ type Step struct {
 	O0    int64  `json:"o0,omitempty"`
 	O1    int64  `json:"o1,omitempty"`
 	Parts []int  `json:"parts,omitempty"` // chunked: write sizes
+	// Reader (pushBlob): 0 bytes.Reader; 1 a reader of unknown length; 2 a bytes.Buffer that the caller
+	// fills with other data once the push has returned; 3 strings.Reader; 4 one byte per Read; 5 the last
+	// bytes delivered together with io.EOF
+	Reader int `json:"reader,omitempty"`
 }
 
 type Script struct {
@@ -136,7 +141,26 @@ func run(s Script, v *vt.V) {
 				if len(st.Parts)%2 == 1 {
 					content = struct{ io.Reader }{content} // a reader whose length cannot be asked for
 				}
+				var reused *bytes.Buffer
+				switch st.Reader {
+				case 1:
+					content = struct{ io.Reader }{bytes.NewReader(data)}
+				case 2:
+					reused = bytes.NewBuffer(append([]byte(nil), data...))
+					content = reused
+				case 3:
+					content = strings.NewReader(string(data))
+				case 4:
+					content = iotest.OneByteReader(bytes.NewReader(data))
+				case 5:
+					content = iotest.DataErrReader(bytes.NewReader(data))
+				}
 				_, perr = reg.PushBlob(ctx, repo, decl, content)
+				if reused != nil {
+					// the buffer is the caller's again: it is refilled with something else
+					reused.Reset()
+					reused.Write(bytes.Repeat([]byte{0x5A}, len(data)+1))
+				}
 			case "chunked":
 				if st.Bad == 2 || st.Bad == 3 {
 					bad = false // a chunked upload declares no size
@@ -580,6 +604,8 @@ func genScript(t *rapid.T) Script {
 				st.Bad = rapid.IntRange(1, 4).Draw(t, "badKind")
 			}
 			switch st.Path {
+			case "pushBlob":
+				st.Reader = rapid.SampledFrom([]int{0, 0, 1, 2, 2, 3, 4, 5}).Draw(t, "reader")
 			case "chunked":
 				for j := rapid.IntRange(0, 3).Draw(t, "nparts"); j > 0; j-- {
 					st.Parts = append(st.Parts, rapid.SampledFrom([]int{0, 1, 2, 100, 8191, 8192, 8193, 20000}).Draw(t, "part"))
@@ -620,7 +646,7 @@ func genScript(t *rapid.T) Script {
 var propHist = &vt.Prop[Script]{
 	ID:   "C01",
 	Name: "IntegrityHistories",
-	Rule: "stack drawn from the grammar S ::= mem | http(S,opts) | debug(S) | select(S) | sub(S,prefix) | unify(S,mem) (depth <= 4, <= 2 hops); history of <= 25 steps over 3 repositories and 4 distinct contents (lengths 0,1,2,3, around 8 KiB, 40000, in one history of 25 one content of 4 MiB-1 .. 5 MiB; thorough also around 64 KiB / 128 KiB / 300000; NUL/0xFF/UTF-8 fragments): pushes by PushBlob, chunked writer (generated partition), raw single-POST, mount, PushManifest by tag/digest, raw manifest PUT, each truthful or with a declared digest of other content / size +-1; deletes; complete reads (GetBlob/GetManifest/GetTag/Resolve*) and GetBlobRange(o0,o1) with o0,o1 in {-1,0,1,2,len-1,len,len+1,len/2,...}; oracle = independent map (repo,digest)->bytes and own sha256: exact bytes, digest, size; range = exact slice + whole-blob descriptor, non-empty in-bounds ranges must succeed; refused pushes leave nothing retrievable; non-trivial = a push/read/range of >= 1 byte through >= 1 wrapper or hop, or a mismatching push; distinct = (stack shape, set of (push path | read kind, length class | range class))",
+	Rule: "stack drawn from the grammar S ::= mem | http(S,opts) | debug(S) | select(S) | sub(S,prefix) | unify(S,mem) (depth <= 4, <= 2 hops); history of <= 25 steps over 3 repositories and 4 distinct contents (lengths 0,1,2,3, around 8 KiB, 40000, in one history of 25 one content of 4 MiB-1 .. 5 MiB; thorough also around 64 KiB / 128 KiB / 300000; NUL/0xFF/UTF-8 fragments): pushes by PushBlob (from a bytes.Reader, a reader of unknown length, a strings.Reader, a bytes.Buffer that the caller refills afterwards, one byte per Read, data delivered together with EOF), chunked writer (generated partition), raw single-POST, mount, PushManifest by tag/digest, raw manifest PUT, each truthful or with a declared digest of other content / size +-1; deletes; complete reads (GetBlob/GetManifest/GetTag/Resolve*) and GetBlobRange(o0,o1) with o0,o1 in {-1,0,1,2,len-1,len,len+1,len/2,...}; oracle = independent map (repo,digest)->bytes and own sha256: exact bytes, digest, size; range = exact slice + whole-blob descriptor, non-empty in-bounds ranges must succeed; refused pushes leave nothing retrievable; non-trivial = a push/read/range of >= 1 byte through >= 1 wrapper or hop, or a mismatching push; distinct = (stack shape, set of (push path | read kind, length class | range class))",
 	Gen:  genScript,
 	Run:  run,
 }
